@@ -593,7 +593,7 @@ func (Scenario) Run(c choice.Chooser, opt sim.Options) sim.Result {
 	}
 	out := s.Run()
 	res.Steps = int(out.Steps)
-	res.Count("sched:policy:"+out.PolicyName, 1)
+	res.Count("fault:schedule-policy:"+out.PolicyName, 1)
 	res.Count("sched:steps", int(out.Steps))
 	res.Count("sched:switches", out.Switches)
 	res.Count("sched:dumps", out.Dumps)
@@ -691,6 +691,17 @@ func (Scenario) Run(c choice.Chooser, opt sim.Options) sim.Result {
 	}
 	if blockedWhileEval {
 		res.Count("probe:call-arrived-during-evaluation", 1)
+		res.Count("fault:client-stalled-inside-evaluation-while-others-arrive", 1)
+	}
+	for cl := range plans {
+		for _, o := range plans[cl] {
+			switch {
+			case o.Kind == opBadUpdate:
+				res.Count("fault:malformed-update", 1)
+			case o.Kind == opUpdate && o.Value >= poison && g.ParamKind[o.Param] == 0:
+				res.Count("fault:poisoned-value(node-panics)", 1)
+			}
+		}
 	}
 	m := model(&g)
 	verdict, _ := porcupine.CheckOperationsVerbose(m, ops, 30*time.Second)
